@@ -460,4 +460,6 @@ func (p *H2Peer) Response(streamID uint32) H2Response {
 }
 
 // HandshakeVia is Handshake with the TLS client writing through w (a wrapper around raw).
-func HandshakeVia(raw *Conn, w net.Conn, o ClientOpts) (*TLSClient, error) { return handshakeVia(raw, w, o) }
+func HandshakeVia(raw *Conn, w net.Conn, o ClientOpts) (*TLSClient, error) {
+	return handshakeVia(raw, w, o)
+}
